@@ -352,7 +352,11 @@ class C07(Prop):
             spec['src'] = 'load'          # the sources arrive through one load((descriptor, iterators)) step instead of plain iterables
         elif r_src < 0.4 and all(t['fields'] for t in tabs):
             spec['src'] = 'package'       # ... or from a data package on disk, read with load(path)
-        if config == 'same-object' and spec.get('src') != 'load' and rng.random() < 0.35 and any(not ln.startswith('cp:') and not ln.startswith('v') and not ln.startswith('x') for ln in links):
+        if spec.get('src') == 'package' and config != 'same-object' and rng.random() < 0.5:
+            config = 'same-object'          # file sources are where a step can keep half-read state between runs
+            for op in ops:
+                op.pop('tz', None)
+        if config == 'same-object' and spec.get('src') != 'load' and rng.random() < (0.8 if spec.get('src') == 'package' else 0.35) and any(not ln.startswith('cp:') and not ln.startswith('v') and not ln.startswith('x') for ln in links):
             # history op: a run of the same Flow object that fails part-way, somewhere before the last run (not with
             # (descriptor, iterators) sources: the iterators handed to load are one-shot, half-consumed after a failure)
             ops.insert(rng.randrange(1, len(ops)), {'op': 'failrun', 'at': rng.choice([0, 1, 2, 5])})
